@@ -358,6 +358,36 @@ def c11_sites(repo_root, tier):
                 f"{sm}() names {sorted(flds) + sorted(consts)}; all of them are read/bound by render" if not bad
                 else f"{sm}() puts {bad} in scope but render never touches it: a name that is never bound would hide a global",
                 witness=None if not bad else {"class": c.name, "names": bad})
+        # a name that render binds only under a condition on the node (`if self.var:` ... namespace[key] = ..) is put in scope by
+        # partial_scope()/block_scope() under that condition too - in scope unconditionally, it would hide a global that the
+        # partial really reads when the condition is false
+        def _guards(fn, node):
+            g = set()
+            for i in ast.walk(fn):
+                if isinstance(i, ast.If) and any(x is node for st in i.body for x in ast.walk(st)):
+                    g |= _self_attrs(i.test)
+            return g
+        render_guards = None
+        for r in run:
+            rfn = meth[r][2]
+            for st in ast.walk(rfn):
+                if isinstance(st, ast.Assign) and len(st.targets) == 1 and isinstance(st.targets[0], ast.Subscript) and isinstance(st.targets[0].value, ast.Name) \
+                        and st.targets[0].value.id == "namespace" and isinstance(st.targets[0].slice, ast.Name):
+                    g = _guards(rfn, st)
+                    render_guards = g if render_guards is None else (render_guards & g)
+        if render_guards:
+            for sm in ("partial_scope", "block_scope"):
+                if sm not in meth or meth[sm][1].name == "Node":
+                    continue
+                fn = meth[sm][2]
+                bad = []
+                for call in ast.walk(fn):
+                    if isinstance(call, ast.Call) and isinstance(call.func, ast.Attribute) and call.func.attr == "append":
+                        if not (render_guards <= _guards(fn, call)):
+                            bad.append(f"line {call.lineno}: `{ast.unparse(call)[:60]}` is not under a test of self.{sorted(render_guards)[0]}")
+                _ob(obs, f"{m.name}:{c.name}.{sm}/site.conditional-names-under-render-condition", not bad,
+                    f"names that render binds only when self.{sorted(render_guards)} holds are put in scope under the same test" if not bad
+                    else f"{sm}() puts a name in scope unconditionally that render binds only under a test of self.{sorted(render_guards)} ({bad[0]})")
         assigned = set()
         for r in run:
             for call in ast.walk(meth[r][2]):
@@ -368,6 +398,41 @@ def c11_sites(repo_root, tier):
             bad = sorted(assigned - ts)
             _ob(obs, f"{m.name}:{c.name}/site.assigned-names-in-template-scope", not bad,
                 f"render binds {sorted(assigned)} in the template scope and template_scope() reports it" if not bad else f"render assigns self.{bad[0]} but template_scope() does not report it")
+    # ---- (1b) a node that evaluates a *part* of one of its expressions (self.expression.cols.evaluate(..)) relies on that
+    #      expression's children() to report the part
+    expr_classes = {c.name: (m, c) for m, c in node_classes(repo, "Expression")}
+    n_parts = 0
+    for m, c in node_classes(repo, "Node"):
+        meth = _methods(repo, m, c)
+        init = meth.get("__init__")
+        ann = {}
+        if init is not None:
+            for a in init[2].args.args + init[2].args.kwonlyargs:
+                if a.annotation is not None:
+                    ann[a.arg] = ast.unparse(a.annotation)
+        for r in RUN_NODE:
+            if r not in meth or meth[r][1].name != c.name:
+                continue
+            for call in ast.walk(meth[r][2]):
+                if isinstance(call, ast.Call) and isinstance(call.func, ast.Attribute) and call.func.attr in EVAL_METHODS:
+                    recv = call.func.value
+                    if isinstance(recv, ast.Attribute) and isinstance(recv.value, ast.Attribute) and isinstance(recv.value.value, ast.Name) and recv.value.value.id == "self":
+                        field, part = recv.value.attr, recv.attr
+                        n_parts += 1
+                        owners = [n for n in expr_classes if n in ann.get(field, "")]
+                        ok = bool(owners)
+                        why = f"self.{field} has no annotated expression class"
+                        for o in owners:
+                            om, oc = expr_classes[o]
+                            ometh = _methods(repo, om, oc)
+                            rep = reported_fields(ometh, ("children",))
+                            if part not in rep:
+                                ok = False
+                                why = f"{o}.children() does not report self.{part}"
+                        _ob(obs, f"{m.name}:{c.name}.{r}/site.evaluated-part-reported.{field}.{part}", ok,
+                            f"self.{field}.{part} is evaluated by the node and reported by {owners}.children()" if ok
+                            else f"render evaluates self.{field}.{part}, but {why}: variables used there are never reported")
+    _ob(obs, "liquid2/site.evaluated-parts.count", n_parts >= 2, f"{n_parts} parts of expressions evaluated directly by nodes")
     # ---- (2) expressions: what evaluate evaluates is what children() reports
     for m, c in node_classes(repo, "Expression"):
         n_exprs += 1
